@@ -71,6 +71,18 @@ Theorem sanitizer_stop_exact : forall out stop fuel roots res,
   forall n, In n res <-> sreach out stop roots n.
 Proof. exact Cond.sanitizer_stop_exact. Qed.
 
+(* several taint problems: stopping also at the sanitizers of ANOTHER problem can only lose nodes (and does: Example) *)
+Theorem other_problem_sanitizers_only_lose : forall out stop_p stop_q fuel fuel' roots res res',
+  visit out stop_p fuel roots = Some res ->
+  visit out (fun n => stop_p n || stop_q n) fuel' roots = Some res' ->
+  incl res' res.
+Proof. exact Cond.other_problem_sanitizers_only_lose. Qed.
+
+Example other_problem_sanitizer_must_not_stop :
+  visit ex_out_q (fun _ => false) 10 [0] = Some [4; 2; 1; 0] /\
+  visit ex_out_q (fun n => false || (n =? 1)) 10 [0] = Some [1; 0].
+Proof. exact Cond.other_problem_sanitizer_must_not_stop. Qed.
+
 (* ---- non-vacuity ---------------------------------------------------------------------------------------------------- *)
 Example early_return_dropped :
   wf_cfgb early_return = true /\
